@@ -45,9 +45,14 @@ Definition shell_density (radii : list R) (dens : list (R -> R)) (earth_radius r
 Definition shell_density_array (radii : list R) (dens : list (R -> R)) (earth_radius : R) (rs : list R) : list R :=
   map (shell_density radii dens earth_radius) rs.
 
-(* np.linspace(0, 1, n): n points i * (1/(n-1)), i = 0..n-1  (n = 1 gives [0], n <= 0 gives []) *)
-Definition linspace01 (n : Z) : list R :=
-  map (fun i : nat => INR i * / IZR (n - 1)) (seq 0 (Z.to_nat n)).
+(* np.linspace(0, 1, n): n points i * (1/(n-1)), i = 0..n-1  (n = 1 gives [0], n <= 0 gives []);
+   the index is carried as a real counter x = 0, 1, 2, ... *)
+Fixpoint lin_go (x h : R) (n : nat) : list R :=
+  match n with
+  | O => []
+  | S m => x * h :: lin_go (x + 1) h m
+  end.
+Definition linspace01 (n : Z) : list R := lin_go 0 (/ IZR (n - 1)) (Z.to_nat n).
 
 (* radius of the sample point at parameter t on the chord e + t*L*d *)
 Definition chord_radius (e d : vec3) (L t : R) : R :=
